@@ -226,12 +226,15 @@ func c03Initiator(rc *RC) {
 			adv = append(adv, n)
 		}
 	}
-	muts := []string{"none", "none", "none", "premature-success-empty", "premature-success-payload", "final-in-challenge", "failure", "foreign-ns", "bad-base64", "wrong-signature", "equals", "empty-challenge", "challenge-after-done", "failure-malformed", "failure-odd-content"}
+	muts := []string{"none", "none", "none", "premature-success-empty", "premature-success-payload", "final-in-challenge", "failure", "foreign-ns", "bad-base64", "wrong-signature", "equals", "empty-challenge", "challenge-after-done", "failure-malformed", "failure-odd-content",
+		// the verdict is due and the receiver closes its stream instead; the receiver turns the chosen mechanism down as
+		// invalid and then serves whatever the initiator tries next
+		"close-instead-of-verdict", "reject-as-invalid-mechanism"}
 	plan := make([]string, 6)
 	for i := range plan {
 		plan[i] = muts[ch.Int("script", len(muts))]
 	}
-	afterFinal := ch.Int("script", 5) // reply to the response that follows a final-in-challenge: 0 failure, 1 success, 2 silence, 3 an empty challenge, 4 a challenge with data
+	afterFinal := ch.Int("script", 6) // reply to the response that follows a final-in-challenge: 0 failure, 1 success, 2 silence, 3 an empty challenge, 4 a challenge with data, 5 the closing stream tag
 	var prefNames []string
 	for _, p := range prefs {
 		prefNames = append(prefNames, p.Name)
@@ -294,6 +297,7 @@ func c03Initiator(rc *RC) {
 	_ = err
 	successAt := -1 // scheduler step at which a genuine <success/> was written
 	var wireMech string
+	var wireMechs []string
 	var sent []string
 	hashOf := map[string]func() hash.Hash{"SCRAM-SHA-1": sha1.New, "SCRAM-SHA-256": sha256.New, "SCRAM-SHA-1-PLUS": sha1.New, "SCRAM-SHA-256-PLUS": sha256.New}
 	bindingOK := true // false once the server ran a -PLUS mechanism against a channel the client is not on
@@ -350,6 +354,7 @@ func c03Initiator(rc *RC) {
 				for _, a := range st.Attr {
 					if a.Name.Local == "mechanism" {
 						wireMech = a.Value
+						wireMechs = append(wireMechs, a.Value)
 					}
 				}
 				var m sasl.Mechanism
@@ -406,6 +411,9 @@ func c03Initiator(rc *RC) {
 						}
 						fmt.Fprintf(sc, `<challenge xmlns='%s'>%s</challenge>`, nsSASL, data)
 						sent = append(sent, "challenge(after final-in-challenge)")
+					case 5:
+						io.WriteString(sc, `</stream:stream>`)
+						sent = append(sent, "stream-closed(after final-in-challenge)")
 					default:
 						sent = append(sent, "silence(after final-in-challenge)")
 					}
@@ -450,6 +458,18 @@ func c03Initiator(rc *RC) {
 				el = "success"
 			}
 			ns := nsSASL
+			if mut == "close-instead-of-verdict" && el == "success" {
+				io.WriteString(sc, `</stream:stream>`)
+				sent = append(sent, "stream-closed[close-instead-of-verdict]")
+				finished = true
+				continue
+			}
+			if mut == "reject-as-invalid-mechanism" && st.Name.Local == "auth" {
+				fmt.Fprintf(sc, `<failure xmlns='%s'><invalid-mechanism/></failure>`, nsSASL)
+				sent = append(sent, "failure(invalid-mechanism)[reject-as-invalid-mechanism]")
+				srv, srvStep = nil, nil
+				continue
+			}
 			switch mut {
 			case "premature-success-empty":
 				if el == "challenge" {
@@ -545,7 +565,7 @@ func c03Initiator(rc *RC) {
 		rc.Check("C03.c1", "plus-without-tls-state", tlsMode != 0, "initiator authenticated with %s although its transport reports no TLS state", wireMech)
 		rc.Check("C03.c1", "plus-binding-mismatch-accepted", bindingOK || successAt < 0 || successAt > gstep.Step, "initiator authenticated with %s although the server verified against another channel's tls-unique; server sent %v", wireMech, sent)
 	}
-	if wireMech != "" {
+	for _, wireMech := range wireMechs {
 		rc.Evals["C03.c3"]++
 		inAdv, inCfg := false, false
 		for _, a := range adv {
